@@ -167,6 +167,9 @@ add_binfunc!(add_int_pow, pow, X_INT, Int, X_INT, |a: &LazyBigint,
             "cannot raise zero to a zero power",
             rt.clone(),
         )?)
+    } else if b.to_u32().is_none() && a.clone().abs() > LazyBigint::one() {
+        // the result would have more than 2^32 digits
+        Err(ManagedXError::new("exponent too large", rt.clone())?)
     } else {
         rt.can_allocate_by(|| {
             b.to_usize()
